@@ -42,6 +42,10 @@ CHECKS = {
    text="Explicit-state BFS over operation sequences on every internal queue type and constructor parameter set (from empty and from ramped states crossing the representation switches), each compared step by step with a plain slice deque / stable priority queue.",
    note="Trusted: the in-package queue driver (harness file), the operation contracts listed in evidence; Shrink excluded (unused, no contract).",
    technique="explicit-state model checking by replay of operation sequences with a reference deque as oracle"),
+ "C07": dict(level="model_checking", design="4/C07",
+   text="Explicit-state BFS over operation histories on a leader with its real append-only log; at every reached state the queue is drained, the node killed and a fresh node started on the same (in-memory) directory; recovered holds are compared with the persisted live holds before the stop (identity, depth, Count, Rcount, value, deadline tolerance), for several buffer sizes and a rotation threshold that spreads histories over several files.",
+   note="Trusted: instrumenter+runtime, vos in-memory file system (completed write = durable), classification of 'persisted' from the statement (flag / age >= delay+2s).",
+   technique="explicit-state model checking by replay with stop/restart at every state, differential oracle before/after restart"),
 }
 NA_DEFAULT = "check not built yet in this round (planned: see DESIGN.md section 4)"
 
